@@ -1,6 +1,6 @@
 //! Property definitions: which programs, widths, subjects and bounds each check uses.
 
-use crate::checks::{run_jobs, Job, JobCfg, JobOut, Spec, Want};
+use crate::checks::{run_jobs, Job, JobCfg, JobOut, OnlyOn, Spec, Want};
 use crate::corpus;
 use crate::engine::{IoCfg, Limits};
 use crate::native::{self, Case};
@@ -124,6 +124,7 @@ fn base_cfg(property: &str, tier: &str) -> JobCfg {
         want: Want::Halted,
         profile: profile_name().to_string(),
         job_time_cap_s: if thorough { 120 } else { 3 },
+        twice: false,
     }
 }
 
@@ -244,7 +245,7 @@ fn jobs_for(progs: &[(String, String)], ws: &[u32]) -> Vec<Job> {
     }
     for (t, p) in order {
         for &w in ws {
-            jobs.push(Job { tag: t.clone(), code: p.clone(), width: w });
+            jobs.push(Job { tag: t.clone(), code: p.clone(), width: w, ok0: false });
         }
     }
     jobs
@@ -298,6 +299,164 @@ fn plan(property: &str, tier: &str) -> Option<Plan> {
                 functions: vec!["hpbf::ir::Program::parse / optimize", "hpbf::bc::CodeGen::translate(_, 2, true)", "hpbf::exec::BcInterpreter::<SymCell<W>>::{create, build_threaded_code, build_context, execute_in}", "hpbf::exec::bcint::ops::* (threaded-code operations)"],
                 rule: "one case = (program, width) with levels 0..3 run on every explored path, in the build profile named in coverage.profile; non-trivial = forked or needed >= 1 solver query".into(),
                 assumptions: vec![],
+                corpus_desc: desc,
+            })
+        }
+
+        "C07" => {
+            let (progs, desc) = corpus_programs(tier, false);
+            let budgets: Vec<usize> = if thorough { (0..=48).collect() } else { vec![0, 1, 2, 3, 4, 6, 9, 12] };
+            let cfgs: Vec<(Backend, u32)> = if thorough {
+                vec![(Backend::Inplace, 0), (Backend::Ir, 0), (Backend::Ir, 1), (Backend::Ir, 2), (Backend::Ir, 3), (Backend::Bc, 0), (Backend::Bc, 1), (Backend::Bc, 2), (Backend::Bc, 3)]
+            } else {
+                vec![(Backend::Inplace, 0), (Backend::Ir, 0), (Backend::Ir, 2), (Backend::Bc, 0), (Backend::Bc, 2)]
+            };
+            let mut cfg = base_cfg(property, tier);
+            cfg.detect_divergence = true;
+            cfg.want = Want::Limited;
+            cfg.job_time_cap_s = if thorough { 120 } else { 4 };
+            let nb = budgets.len();
+            Some(Plan {
+                property: property.into(),
+                jobs: jobs_for(&progs, &ws),
+                specs: Box::new(move |_j| {
+                    let mut v = Vec::new();
+                    for &(b, l) in &cfgs {
+                        for &bud in &budgets {
+                            v.push(Spec::limited(b, l, bud));
+                        }
+                        v.push(Spec { must_finish: true, ..Spec::limited(b, l, 1usize << 62) });
+                    }
+                    v
+                }),
+                cfg,
+                time_box: Duration::from_secs(if thorough { 2400 } else { 170 }),
+                level: "model_checking",
+                functions: vec!["hpbf::exec::{InplaceInterpreter, IrInterpreter, BcInterpreter}::<SymCell<W>>::execute_limited", "hpbf::exec::bcint::{build_threaded_code (limited=true), ops::limit}", "hpbf::exec::irint::execute_block::<_, true>"],
+                rule: format!("one case = (program, width); every explored path runs execute_limited for {} budgets plus 2^62 on each backend/level; non-trivial = forked or needed >= 1 solver query", nb),
+                assumptions: vec!["budgets are enumerated (Context::budget is a usize, not a cell): the listed budgets exhaustively and one huge budget; budgets in between are outside the claim".into(), "the baseline JIT is not covered by this check (no x86 model in this build of the machinery)".into()],
+                corpus_desc: desc,
+            })
+        }
+        "C08" => {
+            let (progs, desc) = corpus_programs(tier, false);
+            let cfgs: Vec<(Backend, u32)> = if thorough {
+                vec![(Backend::Inplace, 0), (Backend::Ir, 0), (Backend::Ir, 1), (Backend::Ir, 2), (Backend::Ir, 3), (Backend::Bc, 0), (Backend::Bc, 1), (Backend::Bc, 2), (Backend::Bc, 3)]
+            } else {
+                vec![(Backend::Inplace, 0), (Backend::Ir, 0), (Backend::Ir, 2), (Backend::Bc, 0), (Backend::Bc, 2)]
+            };
+            let mut cfg = base_cfg(property, tier);
+            cfg.io = IoCfg { eof_forks: if thorough { 3 } else { 2 }, out_fault_forks: if thorough { 6 } else { 3 }, in_fault_forks: if thorough { 6 } else { 3 }, out_fault_ok0: false };
+            cfg.job_time_cap_s = if thorough { 120 } else { 4 };
+            let mut jobs = jobs_for(&progs, &ws);
+            // the Ok(0) flavour of a refused write, on the programs that write
+            let extra: Vec<Job> = jobs.iter().filter(|j| j.code.contains('.') && j.width == 8).map(|j| Job { ok0: true, ..j.clone() }).collect();
+            // interleave
+            let mut merged = Vec::with_capacity(jobs.len() + extra.len());
+            let mut ei = extra.into_iter();
+            for (i, j) in jobs.drain(..).enumerate() {
+                merged.push(j);
+                if i % 2 == 0 {
+                    if let Some(e) = ei.next() {
+                        merged.push(e);
+                    }
+                }
+            }
+            merged.extend(ei);
+            Some(Plan {
+                property: property.into(),
+                jobs: merged,
+                specs: Box::new(move |_j| {
+                    let mut v = Vec::new();
+                    for &(b, l) in &cfgs {
+                        v.push(Spec::full(b, l));
+                        v.push(Spec { no_input: true, ..Spec::full(b, l) });
+                        v.push(Spec { no_output: true, ..Spec::full(b, l) });
+                    }
+                    v
+                }),
+                cfg,
+                time_box: Duration::from_secs(if thorough { 2400 } else { 170 }),
+                level: "fault_enumeration",
+                functions: vec!["hpbf::runtime::Context::{input, output}", "hpbf::exec::{InplaceInterpreter, IrInterpreter, BcInterpreter}::<SymCell<W>>::execute", "hpbf::exec::bcint::ops::{input, output}"],
+                rule: "one case = (program, width, flavour of refused write); the failing event index is a free decision of the exploration (every position among the first K outputs / inputs on every explored path), plus the configurations input absent and output absent; non-trivial = forked or needed >= 1 solver query".into(),
+                assumptions: vec!["the baseline JIT is not covered by this check (no x86 model in this build of the machinery)".into()],
+                corpus_desc: desc,
+            })
+        }
+        "C05" => {
+            let (progs, desc) = corpus_programs(tier, false);
+            let cfgs: Vec<(Backend, u32)> = if thorough {
+                vec![(Backend::Inplace, 0), (Backend::Ir, 0), (Backend::Ir, 1), (Backend::Ir, 2), (Backend::Ir, 3), (Backend::Bc, 0), (Backend::Bc, 1), (Backend::Bc, 2), (Backend::Bc, 3)]
+            } else {
+                vec![(Backend::Inplace, 0), (Backend::Ir, 1), (Backend::Ir, 2), (Backend::Ir, 3), (Backend::Bc, 1), (Backend::Bc, 2), (Backend::Bc, 3)]
+            };
+            let mut cfg = base_cfg(property, tier);
+            cfg.detect_divergence = true;
+            cfg.want = Want::Divergence;
+            cfg.job_time_cap_s = if thorough { 120 } else { 4 };
+            Some(Plan {
+                property: property.into(),
+                jobs: jobs_for(&progs, &ws),
+                specs: Box::new(move |_j| {
+                    let mut v = Vec::new();
+                    for &(b, l) in &cfgs {
+                        v.push(Spec { only_on: Some(OnlyOn::Halted), ..Spec::full(b, l) });
+                        v.push(Spec { only_on: Some(OnlyOn::Divergent), ..Spec::limited(b, l, 64) });
+                        v.push(Spec { only_on: Some(OnlyOn::Divergent), ..Spec::limited(b, l, 256) });
+                    }
+                    v
+                }),
+                cfg,
+                time_box: Duration::from_secs(if thorough { 2400 } else { 170 }),
+                level: "model_checking",
+                functions: vec!["hpbf::opt (infinite / no_return / no_continue classification)", "hpbf::bc::CodeGen (Scan lowering)", "hpbf::exec::{InplaceInterpreter, IrInterpreter, BcInterpreter}::<SymCell<W>>::{execute, execute_limited}"],
+                rule: "one case = (program, width); on reference paths proved divergent by a solver-checked state recurrence every backend/level must stay unfinished under budgets 64 and 256 with events a prefix of the periodic canonical stream; on halted paths the unlimited call must return within the operation cap; non-trivial = forked or needed >= 1 solver query".into(),
+                assumptions: vec!["non-return of the subject is established only up to budget 256 (a subject that would return after more back-edges is outside the bound)".into(), "divergence that never repeats a machine state is not classified".into(), "the baseline JIT is not covered by this check".into()],
+                corpus_desc: desc,
+            })
+        }
+        "C10" => {
+            let (mut progs, desc) = corpus_programs(tier, false);
+            for p in corpus::gen_roaming(seed(), if thorough { 200 } else { 60 }) {
+                progs.push(("ROAM".into(), p));
+            }
+            let levels: Vec<u32> = if thorough { vec![0, 1, 2, 3] } else { vec![0, 2, 3] };
+            Some(Plan {
+                property: property.into(),
+                jobs: jobs_for(&progs, &ws),
+                specs: Box::new(move |_j| levels.iter().map(|&l| Spec { mode: Mode::Unsafe(0), ..Spec::full(Backend::Bc, l) }).collect()),
+                cfg: base_cfg(property, tier),
+                time_box: Duration::from_secs(if thorough { 1800 } else { 150 }),
+                level: "model_checking",
+                functions: vec!["hpbf::exec::BcInterpreter::<SymCell<W>>::execute_unsafe", "hpbf::exec::bcint::ops::{movl, movr, scanl, scanr}::<_, false>", "hpbf::runtime::Memory::make_accessible"],
+                rule: "one case = (program, width); execute_unsafe on a context pre-grown to the canonical excursion of the path plus the program length (rounded to whole pages), both ends of the region fenced by PROT_NONE pages; non-trivial = forked or needed >= 1 solver query".into(),
+                assumptions: vec!["the baseline JIT's static mode is not covered by this check".into()],
+                corpus_desc: desc,
+            })
+        }
+        "C13" => {
+            let (progs, desc) = corpus_programs(tier, false);
+            let mut cfg = base_cfg(property, tier);
+            cfg.twice = true;
+            let levels: Vec<u32> = if thorough { vec![0, 1, 2, 3, 4] } else { vec![0, 2, 3] };
+            Some(Plan {
+                property: property.into(),
+                jobs: jobs_for(&progs, &ws),
+                specs: Box::new(move |_j| {
+                    let mut v = vec![Spec::full(Backend::Inplace, 0)];
+                    for &l in &levels {
+                        v.push(Spec::full(Backend::Ir, l));
+                        v.push(Spec::full(Backend::Bc, l));
+                    }
+                    v
+                }),
+                cfg,
+                time_box: Duration::from_secs(if thorough { 1800 } else { 150 }),
+                level: "model_checking",
+                functions: vec!["hpbf::ir::Program::parse", "hpbf::opt::optimize", "hpbf::bc::CodeGen::translate", "hpbf::exec::BcInterpreter::{build_threaded_code, build_context}", "Executable::execute called twice per executor on fresh contexts"],
+                rule: "one case = (program, width); every executor is built under catch_unwind and executed twice on every explored path, the two symbolic event logs must be identical terms; non-trivial = forked or needed >= 1 solver query".into(),
+                assumptions: vec!["claimed part: totality of compilation on the corpus and re-execution determinism; independence from hash seeds, cross-process determinism and the complexity clause are not decidable by this technique and are not claimed".into()],
                 corpus_desc: desc,
             })
         }
@@ -450,7 +609,7 @@ pub fn run_one(property: &str, code: &str, width: u32, tier: &str) -> i32 {
         Some(p) => p,
         None => return 2,
     };
-    let job = Job { tag: "one".into(), code: code.to_string(), width };
+    let job = Job { tag: "one".into(), code: code.to_string(), width, ok0: false };
     let specs = (plan.specs)(&job);
     let out = crate::checks::run_job(&job, &specs, &plan.cfg);
     println!("{:#?}", JobOut { candidates: vec![], ..out.clone() });
@@ -470,6 +629,9 @@ pub fn hunt(n: usize) {
     let mut rng = corpus::Rng::new(sd ^ 77);
     let mut found = 0;
     'prog: for p in progs {
+        if std::env::var("HUNT_VERBOSE").is_ok() {
+            eprintln!("P {}", p);
+        }
         for trial in 0..6 {
             let input: Vec<u8> = (0..8).map(|_| if trial == 0 { 0 } else if trial < 3 { (rng.below(4)) as u8 } else { rng.next() as u8 }).collect();
             for &w in &[8u32, 64] {
@@ -514,7 +676,7 @@ fn still_fails(plan: &Plan, code: &str, width: u32) -> bool {
     if !refbf::balanced(code) {
         return false;
     }
-    let job = Job { tag: "min".into(), code: code.to_string(), width };
+    let job = Job { tag: "min".into(), code: code.to_string(), width, ok0: false };
     let specs = (plan.specs)(&job);
     let out = crate::checks::run_job(&job, &specs, &plan.cfg);
     for (i, c) in out.candidates.iter().enumerate().take(3) {
